@@ -19,6 +19,8 @@ def sub (_bits a b : Nat) : Option Nat := if b ≤ a then some (a - b) else none
 def mul (bits a b : Nat) : Option Nat := if a * b < 2 ^ bits then some (a * b) else none
 /-- `a / b` -/
 def div (_bits a b : Nat) : Option Nat := if b = 0 then none else some (a / b)
+/-- `a % b` -/
+def rem (_bits a b : Nat) : Option Nat := if b = 0 then none else some (a % b)
 /-- `a >> s` (the shift amount must be smaller than the width) -/
 def shr (bits a s : Nat) : Option Nat := if s < bits then some (a / 2 ^ s) else none
 /-- `a << s` (the shift amount must be smaller than the width; bits shifted out of the type are lost) -/
@@ -27,6 +29,10 @@ def shl (bits a s : Nat) : Option Nat := if s < bits then some (a * 2 ^ s % 2 ^ 
 def bitLength (a : Nat) : Nat := if a = 0 then 0 else Nat.log2 a + 1
 /-- `a.leading_zeros()` of a `bits`-wide integer -/
 def leading_zeros (bits a : Nat) : Nat := bits - bitLength a
+/-- `a as T` for a `bits`-wide target: truncation (the identity when the value fits) -/
+def cast (bits a : Nat) : Nat := a % 2 ^ bits
+/-- `!a` on a `bits`-wide integer -/
+def not (bits a : Nat) : Nat := 2 ^ bits - 1 - a
 /-- `T::MAX` -/
 def maxVal (bits : Nat) : Nat := 2 ^ bits - 1
 /-- `primitive::split_dword`: (low word, high word) -/
